@@ -1,0 +1,1153 @@
+//go:build verif
+
+// Contracts for the verification machinery in /verif (govc). This file is only compiled with -tags verif;
+// it adds no behaviour to the package. Syntax: see /verif/DESIGN.md, Appendix A.
+package sql
+
+import (
+	"bytes"
+	"encoding/binary"
+	"math"
+	"time"
+
+	"github.com/google/uuid"
+)
+
+// verifAssume / verifAssert are the harness primitives: govc treats them as assumption and obligation;
+// natively (replays) a violated assertion panics with its label.
+func verifAssume(c bool) {
+	if !c {
+		panic("verifAssume: precondition of the harness not met")
+	}
+}
+
+func verifAssert(label string, c bool) {
+	if !c {
+		panic("verifAssert violated: " + label)
+	}
+}
+
+// --- con-c15 begin (C15: codecs round-trip; key encodings preserve SQL order)
+
+// spec functions: dynamic type of a boxed value (the spec language has no type test of its own)
+func spec_isInt64(v interface{}) bool   { _, ok := v.(int64); return ok }
+func spec_isBool(v interface{}) bool    { _, ok := v.(bool); return ok }
+func spec_isFloat64(v interface{}) bool { _, ok := v.(float64); return ok }
+func spec_isString(v interface{}) bool  { _, ok := v.(string); return ok }
+func spec_isBytes(v interface{}) bool   { _, ok := v.([]byte); return ok }
+func spec_isUUID(v interface{}) bool    { _, ok := v.(uuid.UUID); return ok }
+func spec_isTime(v interface{}) bool    { _, ok := v.(time.Time); return ok }
+
+// A value that already has the Go type of the column is passed through unchanged (same boxed object), nil stays nil.
+// The conversion paths call a converter obtained from getConverter (a function value: dynamic call, not modelled):
+// the frame on those two return sites is an assumption (see the part file), everything else is proved.
+//@ func mayApplyImplicitConversion
+//@   ensures nil_id: val == nil ==> r0 == nil && r1 == nil
+//@   ensures int_id: requiredColumnType == IntegerType && spec_isInt64(val) ==> r1 == nil && r0 == val
+//@   ensures bool_id: requiredColumnType == BooleanType && spec_isBool(val) ==> r1 == nil && r0 == val
+//@   ensures float_id: requiredColumnType == Float64Type && spec_isFloat64(val) ==> r1 == nil && r0 == val
+//@   ensures str_id: requiredColumnType == VarcharType && spec_isString(val) ==> r1 == nil && r0 == val
+//@   ensures blob_id: requiredColumnType == BLOBType && spec_isBytes(val) ==> r1 == nil && r0 == val
+//@   ensures uuid_id: requiredColumnType == UUIDType && spec_isUUID(val) ==> r1 == nil && r0 == val
+//@   ensures time_id: requiredColumnType == TimestampType && spec_isTime(val) ==> r1 == nil && r0 == val
+//@   assigns nothing
+
+// ---------------------------------------------------------------------------------------------------------
+// spec functions over boxed raw values (interface{}) and over decoded TypedValues
+
+func spec_int64Of(v interface{}) int64 { x, _ := v.(int64); return x }
+func spec_boolOf(v interface{}) bool   { x, _ := v.(bool); return x }
+func spec_float64BitsOf(v interface{}) uint64 {
+	x, _ := v.(float64)
+	return math.Float64bits(x)
+}
+func spec_uuidHiOf(v interface{}) uint64 {
+	u, _ := v.(uuid.UUID)
+	return binary.BigEndian.Uint64(u[0:8])
+}
+func spec_uuidLoOf(v interface{}) uint64 {
+	u, _ := v.(uuid.UUID)
+	return binary.BigEndian.Uint64(u[8:16])
+}
+func spec_stringOf(v interface{}) string { x, _ := v.(string); return x }
+func spec_bytesOf(v interface{}) []byte  { x, _ := v.([]byte); return x }
+func spec_stringLenOf(v interface{}) int { x, _ := v.(string); return len(x) }
+func spec_bytesLenOf(v interface{}) int  { x, _ := v.([]byte); return len(x) }
+func spec_timeNanosOf(v interface{}) int64 {
+	t, _ := v.(time.Time)
+	return t.UnixNano()
+}
+func spec_timeMicrosOf(v interface{}) int64 {
+	t, _ := v.(time.Time)
+	return TimeToInt64(t)
+}
+
+// order-preserving bijection uint64 <-> uint64 used for FLOAT keys (sign bit set: complement; else set sign bit)
+func spec_floatKeyBits(b uint64) uint64 {
+	if b&0x8000000000000000 != 0 {
+		return ^b
+	}
+	return b ^ 0x8000000000000000
+}
+func spec_floatKeyBitsInv(k uint64) uint64 {
+	if k&0x8000000000000000 != 0 {
+		return k ^ 0x8000000000000000
+	}
+	return ^k
+}
+
+func spec_isNullV(tv TypedValue) bool      { p, ok := tv.(*NullValue); return ok && p != nil }
+func spec_isIntegerV(tv TypedValue) bool   { p, ok := tv.(*Integer); return ok && p != nil }
+func spec_isBoolV(tv TypedValue) bool      { p, ok := tv.(*Bool); return ok && p != nil }
+func spec_isFloat64V(tv TypedValue) bool   { p, ok := tv.(*Float64); return ok && p != nil }
+func spec_isUUIDV(tv TypedValue) bool      { p, ok := tv.(*UUID); return ok && p != nil }
+func spec_isTimestampV(tv TypedValue) bool { p, ok := tv.(*Timestamp); return ok && p != nil }
+func spec_isVarcharV(tv TypedValue) bool   { p, ok := tv.(*Varchar); return ok && p != nil }
+func spec_isBlobV(tv TypedValue) bool      { p, ok := tv.(*Blob); return ok && p != nil }
+
+func spec_integerVOf(tv TypedValue) int64 {
+	p, ok := tv.(*Integer)
+	if !ok {
+		return 0
+	}
+	return p.val
+}
+func spec_boolVOf(tv TypedValue) bool {
+	p, ok := tv.(*Bool)
+	if !ok {
+		return false
+	}
+	return p.val
+}
+func spec_float64VBitsOf(tv TypedValue) uint64 {
+	p, ok := tv.(*Float64)
+	if !ok {
+		return 0
+	}
+	return math.Float64bits(p.val)
+}
+func spec_uuidVHiOf(tv TypedValue) uint64 {
+	p, ok := tv.(*UUID)
+	if !ok {
+		return 0
+	}
+	return binary.BigEndian.Uint64(p.val[0:8])
+}
+func spec_uuidVLoOf(tv TypedValue) uint64 {
+	p, ok := tv.(*UUID)
+	if !ok {
+		return 0
+	}
+	return binary.BigEndian.Uint64(p.val[8:16])
+}
+func spec_varcharVOf(tv TypedValue) string {
+	p, ok := tv.(*Varchar)
+	if !ok {
+		return ""
+	}
+	return p.val
+}
+func spec_blobVOf(tv TypedValue) []byte {
+	p, ok := tv.(*Blob)
+	if !ok {
+		return nil
+	}
+	return p.val
+}
+
+// ---------------------------------------------------------------------------------------------------------
+// EncodeRawValueAsKey: layout of the key encoding, per SQL type, for a raw value that has the Go type of the column.
+// (MaxKeyLen is a package variable kept in [64, 65535] by Options.Validate: hence the hypothesis maxLen <= MaxKeyLen.)
+
+//@ func EncodeRawValueAsKey
+//@   requires mkl: MaxKeyLen <= 65535
+//@   ensures null: val == nil && 0 < maxLen && maxLen <= MaxKeyLen ==> r2 == nil && r1 == 0 && len(r0) == 1 && r0[0] == KeyValPrefixNull
+//@   ensures int: colType == IntegerType && spec_isInt64(val) && maxLen == 8 && maxLen <= MaxKeyLen ==> r2 == nil && r1 == 8 && len(r0) == 9
+//@     && r0[0] == KeyValPrefixNotNull && be64(r0[1:]) == uint64(spec_int64Of(val)) ^ 0x8000000000000000
+//@   ensures bool: colType == BooleanType && spec_isBool(val) && maxLen == 1 && maxLen <= MaxKeyLen ==> r2 == nil && r1 == 1 && len(r0) == 2
+//@     && r0[0] == KeyValPrefixNotNull && (spec_boolOf(val) ==> r0[1] == 1) && (!spec_boolOf(val) ==> r0[1] == 0)
+//@   ensures float: colType == Float64Type && spec_isFloat64(val) && 0 < maxLen && maxLen <= MaxKeyLen ==> r2 == nil && r1 == 8 && len(r0) == 9
+//@     && r0[0] == KeyValPrefixNotNull && be64(r0[1:]) == spec_floatKeyBits(spec_float64BitsOf(val))
+//@   ensures uuid: colType == UUIDType && spec_isUUID(val) && 0 < maxLen && maxLen <= MaxKeyLen ==> r2 == nil && r1 == 16 && len(r0) == 17
+//@     && r0[0] == KeyValPrefixNotNull && be64(r0[1:]) == spec_uuidHiOf(val) && be64(r0[9:]) == spec_uuidLoOf(val)
+//@   ensures time: colType == TimestampType && spec_isTime(val) && maxLen == 8 && maxLen <= MaxKeyLen ==> r2 == nil && r1 == 8 && len(r0) == 9
+//@     && r0[0] == KeyValPrefixNotNull && be64(r0[1:]) == uint64(spec_timeNanosOf(val)) ^ 0x8000000000000000
+//@   ensures varchar: colType == VarcharType && spec_isString(val) && 0 < maxLen && maxLen <= MaxKeyLen && spec_stringLenOf(val) <= maxLen ==> r2 == nil
+//@     && r1 == spec_stringLenOf(val) && len(r0) == 1 + maxLen + EncLenLen && r0[0] == KeyValPrefixNotNull
+//@     && be32(r0[1+maxLen:]) == uint32(spec_stringLenOf(val)) && eqBytes(r0[1:1+spec_stringLenOf(val)], spec_stringOf(val))
+//@     && forall(k, 1 + spec_stringLenOf(val), 1 + maxLen, r0[k] == 0)
+//@   ensures blob: colType == BLOBType && spec_isBytes(val) && 0 < maxLen && maxLen <= MaxKeyLen && spec_bytesLenOf(val) <= maxLen ==> r2 == nil
+//@     && r1 == spec_bytesLenOf(val) && len(r0) == 1 + maxLen + EncLenLen && r0[0] == KeyValPrefixNotNull
+//@     && be32(r0[1+maxLen:]) == uint32(spec_bytesLenOf(val)) && eqBytes(r0[1:1+spec_bytesLenOf(val)], spec_bytesOf(val))
+//@     && forall(k, 1 + spec_bytesLenOf(val), 1 + maxLen, r0[k] == 0)
+//@   assigns nothing
+//@   loop 1 invariant range: 1 <= i && i <= 9
+//@   loop 1 invariant b1: (i > 1 ==> encv[1] == ^byte(floatBits >> 56)) && (i <= 1 ==> encv[1] == byte(floatBits >> 56))
+//@   loop 1 invariant b2: (i > 2 ==> encv[2] == ^byte(floatBits >> 48)) && (i <= 2 ==> encv[2] == byte(floatBits >> 48))
+//@   loop 1 invariant b3: (i > 3 ==> encv[3] == ^byte(floatBits >> 40)) && (i <= 3 ==> encv[3] == byte(floatBits >> 40))
+//@   loop 1 invariant b4: (i > 4 ==> encv[4] == ^byte(floatBits >> 32)) && (i <= 4 ==> encv[4] == byte(floatBits >> 32))
+//@   loop 1 invariant b5: (i > 5 ==> encv[5] == ^byte(floatBits >> 24)) && (i <= 5 ==> encv[5] == byte(floatBits >> 24))
+//@   loop 1 invariant b6: (i > 6 ==> encv[6] == ^byte(floatBits >> 16)) && (i <= 6 ==> encv[6] == byte(floatBits >> 16))
+//@   loop 1 invariant b7: (i > 7 ==> encv[7] == ^byte(floatBits >> 8)) && (i <= 7 ==> encv[7] == byte(floatBits >> 8))
+//@   loop 1 invariant b8: (i > 8 ==> encv[8] == ^byte(floatBits)) && (i <= 8 ==> encv[8] == byte(floatBits))
+//@   loop 1 invariant tag: encv[0] == KeyValPrefixNotNull
+//@   loop 1 decreases 9 - i
+
+// ---------------------------------------------------------------------------------------------------------
+// DecodeValueFromKey: what is decoded from a well-formed key column, per SQL type.
+// TIMESTAMP: the decoded value is time.Unix(0, n).UTC() (library call, not modelled): only shape and consumed length.
+
+// maxLen is Column.MaxLen() at the only call site (row_reader.go): a fixed width or a catalog value that fits 32 bits.
+// Without the bound `1 + maxLen + EncLenLen` wraps for maxLen >= MaxInt64-4 and buf[1+maxLen:] panics (replayed; see notes).
+//@ func DecodeValueFromKey
+//@   requires maxlen: maxLen <= 4294967295
+//@   ensures null: maxLen > 0 && len(buf) >= 1 && buf[0] == KeyValPrefixNull ==> r2 == nil && r1 == 1 && spec_isNullV(r0)
+//@   ensures int: colType == IntegerType && maxLen == 8 && len(buf) >= 9 && buf[0] == KeyValPrefixNotNull ==> r2 == nil && r1 == 9 && spec_isIntegerV(r0)
+//@     && spec_integerVOf(r0) == int64(be64(buf[1:]) ^ 0x8000000000000000)
+//@   ensures bool: colType == BooleanType && maxLen == 1 && len(buf) >= 2 && buf[0] == KeyValPrefixNotNull ==> r2 == nil && r1 == 2 && spec_isBoolV(r0)
+//@     && (spec_boolVOf(r0) == (buf[1] != 0))
+//@   ensures float: colType == Float64Type && maxLen == 8 && len(buf) >= 9 && buf[0] == KeyValPrefixNotNull ==> r2 == nil && r1 == 9 && spec_isFloat64V(r0)
+//@     && spec_float64VBitsOf(r0) == spec_floatKeyBitsInv(be64(buf[1:]))
+//@   ensures uuid: colType == UUIDType && maxLen == 16 && len(buf) >= 17 && buf[0] == KeyValPrefixNotNull ==> r2 == nil && r1 == 17 && spec_isUUIDV(r0)
+//@     && spec_uuidVHiOf(r0) == be64(buf[1:]) && spec_uuidVLoOf(r0) == be64(buf[9:])
+//@   ensures time_shape: colType == TimestampType && maxLen == 8 && len(buf) >= 9 && buf[0] == KeyValPrefixNotNull ==> r2 == nil && r1 == 9 && spec_isTimestampV(r0)
+//@   ensures varchar: colType == VarcharType && 0 < maxLen && maxLen <= 65535 && len(buf) >= 1 + maxLen + EncLenLen && buf[0] == KeyValPrefixNotNull
+//@     && be32(buf[1+maxLen:]) <= uint32(maxLen) ==> r2 == nil && r1 == 1 + maxLen + EncLenLen && spec_isVarcharV(r0)
+//@     && eqBytes(spec_varcharVOf(r0), buf[1:1+int(be32(buf[1+maxLen:]))])
+//@   ensures blob: colType == BLOBType && 0 < maxLen && maxLen <= 65535 && len(buf) >= 1 + maxLen + EncLenLen && buf[0] == KeyValPrefixNotNull
+//@     && be32(buf[1+maxLen:]) <= uint32(maxLen) ==> r2 == nil && r1 == 1 + maxLen + EncLenLen && spec_isBlobV(r0)
+//@     && eqBytes(spec_blobVOf(r0), buf[1:1+int(be32(buf[1+maxLen:]))])
+//@   ensures consumed: r2 == nil ==> 1 <= r1 && r1 <= len(buf)
+//@   assigns nothing
+//@   loop 1 invariant b0: (rangeindex >= 0 ==> raw[0] == ^buf[1]) && (rangeindex < 0 ==> raw[0] == buf[1])
+//@   loop 1 invariant b1: (rangeindex >= 1 ==> raw[1] == ^buf[2]) && (rangeindex < 1 ==> raw[1] == buf[2])
+//@   loop 1 invariant b2: (rangeindex >= 2 ==> raw[2] == ^buf[3]) && (rangeindex < 2 ==> raw[2] == buf[3])
+//@   loop 1 invariant b3: (rangeindex >= 3 ==> raw[3] == ^buf[4]) && (rangeindex < 3 ==> raw[3] == buf[4])
+//@   loop 1 invariant b4: (rangeindex >= 4 ==> raw[4] == ^buf[5]) && (rangeindex < 4 ==> raw[4] == buf[5])
+//@   loop 1 invariant b5: (rangeindex >= 5 ==> raw[5] == ^buf[6]) && (rangeindex < 5 ==> raw[5] == buf[6])
+//@   loop 1 invariant b6: (rangeindex >= 6 ==> raw[6] == ^buf[7]) && (rangeindex < 6 ==> raw[6] == buf[7])
+//@   loop 1 invariant b7: (rangeindex >= 7 ==> raw[7] == ^buf[8]) && (rangeindex < 7 ==> raw[7] == buf[8])
+//@   loop 1 decreases 7 - rangeindex
+
+// ---------------------------------------------------------------------------------------------------------
+// Row value codec: EncodeRawValue / DecodeValueLength / decodeValue ([len uint32 BE][payload]).
+// JSON is out of scope (json.Marshal/Unmarshal are library calls).
+
+//@ func EncodeRawValue
+//@   ensures null: val == nil && nullable ==> r1 == nil && len(r0) == EncLenLen && be32(r0) == 0
+//@   ensures null_rejected: val == nil && !nullable ==> r1 != nil
+//@   ensures int: colType == IntegerType && spec_isInt64(val) ==> r1 == nil && len(r0) == 12 && be32(r0) == 8
+//@     && be64(r0[4:]) == uint64(spec_int64Of(val))
+//@   ensures bool: colType == BooleanType && spec_isBool(val) ==> r1 == nil && len(r0) == 5 && be32(r0) == 1
+//@     && (spec_boolOf(val) ==> r0[4] == 1) && (!spec_boolOf(val) ==> r0[4] == 0)
+//@   ensures float: colType == Float64Type && spec_isFloat64(val) ==> r1 == nil && len(r0) == 12 && be32(r0) == 8
+//@     && be64(r0[4:]) == spec_float64BitsOf(val)
+//@   ensures uuid: colType == UUIDType && spec_isUUID(val) ==> r1 == nil && len(r0) == 20 && be32(r0) == 16
+//@     && be64(r0[4:]) == spec_uuidHiOf(val) && be64(r0[12:]) == spec_uuidLoOf(val)
+//@   ensures time: colType == TimestampType && spec_isTime(val) ==> r1 == nil && len(r0) == 12 && be32(r0) == 8
+//@     && be64(r0[4:]) == uint64(spec_timeMicrosOf(val))
+//@   ensures varchar: colType == VarcharType && spec_isString(val) && (maxLen <= 0 || spec_stringLenOf(val) <= maxLen) ==> r1 == nil
+//@     && len(r0) == EncLenLen + spec_stringLenOf(val) && be32(r0) == uint32(spec_stringLenOf(val)) && eqBytes(r0[4:], spec_stringOf(val))
+//@   ensures blob: colType == BLOBType && spec_isBytes(val) && (maxLen <= 0 || spec_bytesLenOf(val) <= maxLen) ==> r1 == nil
+//@     && len(r0) == EncLenLen + spec_bytesLenOf(val) && be32(r0) == uint32(spec_bytesLenOf(val)) && eqBytes(r0[4:], spec_bytesOf(val))
+//@   assigns nothing
+
+//@ func DecodeValueLength
+//@   ensures bound: r2 == nil ==> r1 == EncLenLen && 0 <= r0 && r0 <= len(b) - EncLenLen
+//@   ensures value: len(b) >= EncLenLen && int(be32(b)) <= len(b) - EncLenLen ==> r2 == nil && r0 == int(be32(b))
+//@   ensures value2: r2 == nil ==> r0 == int(be32(b))
+//@   assigns nothing
+
+//@ func decodeValue
+//@   ensures consumed: r2 == nil ==> EncLenLen <= r1 && r1 <= len(b)
+//@   ensures nonnil: r2 == nil ==> r0 != nil
+//@   ensures null: nullable && len(b) >= EncLenLen && be32(b) == 0 ==> r2 == nil && r1 == EncLenLen && spec_isNullV(r0)
+//@   ensures int: colType == IntegerType && len(b) >= 12 && be32(b) == 8 ==> r2 == nil && r1 == 12 && spec_isIntegerV(r0)
+//@     && spec_integerVOf(r0) == int64(be64(b[4:]))
+//@   ensures bool: colType == BooleanType && len(b) >= 5 && be32(b) == 1 ==> r2 == nil && r1 == 5 && spec_isBoolV(r0)
+//@     && (spec_boolVOf(r0) == (b[4] == 1))
+//@   ensures float: colType == Float64Type && len(b) >= 12 && be32(b) == 8 ==> r2 == nil && r1 == 12 && spec_isFloat64V(r0)
+//@     && spec_float64VBitsOf(r0) == be64(b[4:])
+//@   ensures uuid: colType == UUIDType && len(b) >= 20 && be32(b) == 16 ==> r2 == nil && r1 == 20 && spec_isUUIDV(r0)
+//@     && spec_uuidVHiOf(r0) == be64(b[4:]) && spec_uuidVLoOf(r0) == be64(b[12:])
+//@   ensures time_shape: colType == TimestampType && len(b) >= 12 && be32(b) == 8 ==> r2 == nil && r1 == 12 && spec_isTimestampV(r0)
+//@   ensures varchar: colType == VarcharType && len(b) >= EncLenLen && int(be32(b)) <= len(b) - EncLenLen && (!nullable || be32(b) != 0) ==> r2 == nil
+//@     && r1 == EncLenLen + int(be32(b)) && spec_isVarcharV(r0) && eqBytes(spec_varcharVOf(r0), b[4:4+int(be32(b))])
+//@   ensures blob: colType == BLOBType && len(b) >= EncLenLen && int(be32(b)) <= len(b) - EncLenLen && (!nullable || be32(b) != 0) ==> r2 == nil
+//@     && r1 == EncLenLen + int(be32(b)) && spec_isBlobV(r0) && eqBytes(spec_blobVOf(r0), b[4:4+int(be32(b))])
+//@   assigns nothing
+
+// ---------------------------------------------------------------------------------------------------------
+// Harnesses (loop-free: each discharged assertion holds for all inputs). Byte order of fixed-width encodings is
+// compared as (tag byte, big-endian words): verif_lemma_lex* prove that this IS the lexicographic byte order
+// (bytes.Compare) for 2, 9 and 17 byte strings.
+
+// package invariant established by Options.Validate / the default: MaxKeyLen in [64, 65535]
+// (call it as the LAST assumption of a harness: the query slicer of the engine connects an assumption about a global to
+// later obligations only through the reach symbol of the straight-line code that follows)
+func verifEnv() {
+	verifAssume(64 <= MaxKeyLen && MaxKeyLen <= 65535)
+}
+
+func verifLess2(x, y []byte) bool { return x[0] < y[0] || (x[0] == y[0] && x[1] < y[1]) }
+func verifSame2(x, y []byte) bool { return x[0] == y[0] && x[1] == y[1] }
+func verifLess9(x, y []byte) bool {
+	return x[0] < y[0] || (x[0] == y[0] && binary.BigEndian.Uint64(x[1:]) < binary.BigEndian.Uint64(y[1:]))
+}
+func verifSame9(x, y []byte) bool {
+	return x[0] == y[0] && binary.BigEndian.Uint64(x[1:]) == binary.BigEndian.Uint64(y[1:])
+}
+func verifLess17(x, y []byte) bool {
+	xh, yh := binary.BigEndian.Uint64(x[1:]), binary.BigEndian.Uint64(y[1:])
+	xl, yl := binary.BigEndian.Uint64(x[9:]), binary.BigEndian.Uint64(y[9:])
+	return x[0] < y[0] || (x[0] == y[0] && (xh < yh || (xh == yh && xl < yl)))
+}
+func verifSame17(x, y []byte) bool {
+	return x[0] == y[0] && binary.BigEndian.Uint64(x[1:]) == binary.BigEndian.Uint64(y[1:]) &&
+		binary.BigEndian.Uint64(x[9:]) == binary.BigEndian.Uint64(y[9:])
+}
+
+// lexicographic "less" on the 8 bytes x[o:o+8] / y[o:o+8], written out byte by byte
+func verifLex8(x, y []byte, o int) bool {
+	return x[o] < y[o] || (x[o] == y[o] && (x[o+1] < y[o+1] || (x[o+1] == y[o+1] && (x[o+2] < y[o+2] || (x[o+2] == y[o+2] &&
+		(x[o+3] < y[o+3] || (x[o+3] == y[o+3] && (x[o+4] < y[o+4] || (x[o+4] == y[o+4] && (x[o+5] < y[o+5] || (x[o+5] == y[o+5] &&
+			(x[o+6] < y[o+6] || (x[o+6] == y[o+6] && x[o+7] < y[o+7])))))))))))))
+}
+func verifEq8(x, y []byte, o int) bool {
+	return x[o] == y[o] && x[o+1] == y[o+1] && x[o+2] == y[o+2] && x[o+3] == y[o+3] && x[o+4] == y[o+4] && x[o+5] == y[o+5] &&
+		x[o+6] == y[o+6] && x[o+7] == y[o+7]
+}
+
+func verif_lemma_lex9(x, y []byte) {
+	verifAssume(len(x) == 9 && len(y) == 9)
+	lex := x[0] < y[0] || (x[0] == y[0] && verifLex8(x, y, 1))
+	verifAssert("less", lex == verifLess9(x, y))
+	verifAssert("same", (x[0] == y[0] && verifEq8(x, y, 1)) == verifSame9(x, y))
+}
+
+func verif_lemma_lex17(x, y []byte) {
+	verifAssume(len(x) == 17 && len(y) == 17)
+	lex := x[0] < y[0] || (x[0] == y[0] && (verifLex8(x, y, 1) || (verifEq8(x, y, 1) && verifLex8(x, y, 9))))
+	verifAssert("less", lex == verifLess17(x, y))
+	verifAssert("same", (x[0] == y[0] && verifEq8(x, y, 1) && verifEq8(x, y, 9)) == verifSame17(x, y))
+}
+
+// ---- INTEGER
+
+// decode(encode(v)) == v, consumed length, reported length
+func verif_int_key_roundtrip(v int64) {
+	verifEnv()
+	enc, n, err := EncodeRawValueAsKey(v, IntegerType, 8)
+	verifAssert("enc_ok", err == nil && n == 8 && len(enc) == 9)
+	tv, m, err2 := DecodeValueFromKey(enc, IntegerType, 8)
+	verifAssert("dec_ok", err2 == nil && m == 9)
+	iv, ok := tv.(*Integer)
+	verifAssert("dec_type", ok)
+	verifAssert("roundtrip", iv.val == v)
+}
+
+// a < b (signed) <=> enc(a) <lex enc(b); a == b <=> identical encodings
+func verif_int_key_order(a, b int64) {
+	verifEnv()
+	ea, _, erra := EncodeRawValueAsKey(a, IntegerType, 8)
+	eb, _, errb := EncodeRawValueAsKey(b, IntegerType, 8)
+	verifAssert("enc_ok", erra == nil && errb == nil && len(ea) == 9 && len(eb) == 9)
+	verifAssert("order", (a < b) == verifLess9(ea, eb))
+	verifAssert("equal", (a == b) == verifSame9(ea, eb))
+}
+
+// ---- BOOLEAN (false < true)
+
+func verif_bool_key_roundtrip(v bool) {
+	verifEnv()
+	enc, n, err := EncodeRawValueAsKey(v, BooleanType, 1)
+	verifAssert("enc_ok", err == nil && n == 1 && len(enc) == 2)
+	tv, m, err2 := DecodeValueFromKey(enc, BooleanType, 1)
+	verifAssert("dec_ok", err2 == nil && m == 2)
+	bv, ok := tv.(*Bool)
+	verifAssert("dec_type", ok)
+	verifAssert("roundtrip", bv.val == v)
+}
+
+func verif_bool_key_order(a, b bool) {
+	verifEnv()
+	ea, _, erra := EncodeRawValueAsKey(a, BooleanType, 1)
+	eb, _, errb := EncodeRawValueAsKey(b, BooleanType, 1)
+	verifAssert("enc_ok", erra == nil && errb == nil && len(ea) == 2 && len(eb) == 2)
+	verifAssert("order", (!a && b) == verifLess2(ea, eb))
+	verifAssert("equal", (a == b) == verifSame2(ea, eb))
+}
+
+// ---- FLOAT
+
+// bit-exact round trip (every bit pattern: NaN payloads, infinities, both zeros, subnormals)
+func verif_float_key_roundtrip(v float64) {
+	verifEnv()
+	enc, n, err := EncodeRawValueAsKey(v, Float64Type, 8)
+	verifAssert("enc_ok", err == nil && n == 8 && len(enc) == 9)
+	tv, m, err2 := DecodeValueFromKey(enc, Float64Type, 8)
+	verifAssert("dec_ok", err2 == nil && m == 9)
+	fv, ok := tv.(*Float64)
+	verifAssert("dec_type", ok)
+	verifAssert("roundtrip", math.Float64bits(fv.val) == math.Float64bits(v))
+}
+
+// IEEE order for non-NaN values, the pair (-0.0, +0.0) excluded: proved
+func verif_float_key_order_nozero(a, b float64) {
+	verifAssume(a == a && b == b)    // not NaN
+	verifAssume(!(a == 0 && b == 0)) // not both zeros (of any sign)
+	verifEnv()
+	ea, _, erra := EncodeRawValueAsKey(a, Float64Type, 8)
+	eb, _, errb := EncodeRawValueAsKey(b, Float64Type, 8)
+	verifAssert("enc_ok", erra == nil && errb == nil && len(ea) == 9 && len(eb) == 9)
+	verifAssert("order", (a < b) == verifLess9(ea, eb))
+	verifAssert("equal", (a == b) == verifSame9(ea, eb))
+}
+
+// the part of the order lemma that holds for ALL non-NaN values: the encoding is monotone and injective
+func verif_float_key_order_weak(a, b float64) {
+	verifAssume(a == a && b == b)
+	verifEnv()
+	ea, _, erra := EncodeRawValueAsKey(a, Float64Type, 8)
+	eb, _, errb := EncodeRawValueAsKey(b, Float64Type, 8)
+	verifAssert("enc_ok", erra == nil && errb == nil && len(ea) == 9 && len(eb) == 9)
+	verifAssert("monotone", !(a < b) || verifLess9(ea, eb))
+	verifAssert("injective", !verifSame9(ea, eb) || a == b)
+}
+
+// the full order lemma over all non-NaN values: EXPECTED TO FAIL for a = -0.0, b = +0.0 (SQL-equal values with
+// different encodings, enc(-0.0) < enc(+0.0)): genuine defect, kept as an expected failure
+func verif_float_key_order(a, b float64) {
+	verifAssume(a == a && b == b)
+	verifEnv()
+	ea, _, erra := EncodeRawValueAsKey(a, Float64Type, 8)
+	eb, _, errb := EncodeRawValueAsKey(b, Float64Type, 8)
+	verifAssume(erra == nil && errb == nil && len(ea) == 9 && len(eb) == 9)
+	verifAssert("order", (a < b) == verifLess9(ea, eb))
+	verifAssert("equal", (a == b) == verifSame9(ea, eb))
+}
+
+// ---- UUID (SQL comparison = bytes.Compare of the 16 bytes)
+
+func verif_uuid_key_roundtrip(u uuid.UUID) {
+	verifEnv()
+	enc, n, err := EncodeRawValueAsKey(u, UUIDType, 16)
+	verifAssert("enc_ok", err == nil && n == 16 && len(enc) == 17)
+	tv, m, err2 := DecodeValueFromKey(enc, UUIDType, 16)
+	verifAssert("dec_ok", err2 == nil && m == 17)
+	uv, ok := tv.(*UUID)
+	verifAssert("dec_type", ok)
+	verifAssert("roundtrip", uv.val == u)
+}
+
+func verif_uuid_key_order(a, b uuid.UUID) {
+	verifEnv()
+	ea, _, erra := EncodeRawValueAsKey(a, UUIDType, 16)
+	eb, _, errb := EncodeRawValueAsKey(b, UUIDType, 16)
+	verifAssert("enc_ok", erra == nil && errb == nil && len(ea) == 17 && len(eb) == 17)
+	ah, bh := binary.BigEndian.Uint64(a[0:8]), binary.BigEndian.Uint64(b[0:8])
+	al, bl := binary.BigEndian.Uint64(a[8:16]), binary.BigEndian.Uint64(b[8:16])
+	less := ah < bh || (ah == bh && al < bl) // bytes.Compare(a[:], b[:]) < 0, see verif_lemma_lex17
+	verifAssert("order", less == verifLess17(ea, eb))
+	verifAssert("equal", (a == b) == verifSame17(ea, eb))
+}
+
+// ---- TIMESTAMP (the key holds UnixNano(): order is stated over that int64, i.e. for times in 1678..2262)
+
+func verif_ts_key_order(a, b time.Time) {
+	verifEnv()
+	ea, _, erra := EncodeRawValueAsKey(a, TimestampType, 8)
+	eb, _, errb := EncodeRawValueAsKey(b, TimestampType, 8)
+	verifAssert("enc_ok", erra == nil && errb == nil && len(ea) == 9 && len(eb) == 9)
+	verifAssert("order", (a.UnixNano() < b.UnixNano()) == verifLess9(ea, eb))
+	verifAssert("equal", (a.UnixNano() == b.UnixNano()) == verifSame9(ea, eb))
+}
+
+// decoding accepts what the encoder produced and consumes all of it; the decoded time is time.Unix(0, n).UTC() with
+// n recovered by the same sign flip as INTEGER (library constructor: value not modelled)
+func verif_ts_key_decodes(t time.Time) {
+	verifEnv()
+	enc, n, err := EncodeRawValueAsKey(t, TimestampType, 8)
+	verifAssert("enc_ok", err == nil && n == 8 && len(enc) == 9)
+	tv, m, err2 := DecodeValueFromKey(enc, TimestampType, 8)
+	verifAssert("dec_ok", err2 == nil && m == 9)
+	_, ok := tv.(*Timestamp)
+	verifAssert("dec_type", ok)
+}
+
+// ---- NULL sorts first: the encoding of NULL is the single byte 0x20, every non-NULL encoding starts with 0x80
+
+func verif_null_key_first(colType SQLValueType, maxLen int, v int64, f float64, b bool, u uuid.UUID, t time.Time) {
+	verifAssume(0 < maxLen && maxLen <= MaxKeyLen)
+	verifEnv()
+	en, n, err := EncodeRawValueAsKey(nil, colType, maxLen)
+	verifAssert("null_enc", err == nil && n == 0 && len(en) == 1 && en[0] == KeyValPrefixNull)
+	tv, m, err2 := DecodeValueFromKey(en, colType, maxLen)
+	verifAssert("null_dec", err2 == nil && m == 1)
+	_, isNull := tv.(*NullValue)
+	verifAssert("null_type", isNull)
+	ei, _, _ := EncodeRawValueAsKey(v, IntegerType, 8)
+	verifAssert("lt_int", en[0] < ei[0])
+	ef, _, _ := EncodeRawValueAsKey(f, Float64Type, 8)
+	verifAssert("lt_float", en[0] < ef[0])
+	eb, _, _ := EncodeRawValueAsKey(b, BooleanType, 1)
+	verifAssert("lt_bool", en[0] < eb[0])
+	eu, _, _ := EncodeRawValueAsKey(u, UUIDType, 16)
+	verifAssert("lt_uuid", en[0] < eu[0])
+	et, _, _ := EncodeRawValueAsKey(t, TimestampType, 8)
+	verifAssert("lt_ts", en[0] < et[0])
+}
+
+// ---- row value codec (EncodeRawValue / decodeValue), nullable and non-nullable variants
+
+func verif_int_value_roundtrip(v int64, maxLen int, nullable bool) {
+	enc, err := EncodeRawValue(v, IntegerType, maxLen, nullable)
+	verifAssert("enc_ok", err == nil && len(enc) == 12)
+	tv, n, err2 := decodeValue(enc, IntegerType, nullable)
+	verifAssert("dec_ok", err2 == nil && n == 12)
+	iv, ok := tv.(*Integer)
+	verifAssert("dec_type", ok)
+	verifAssert("roundtrip", iv.val == v)
+}
+
+func verif_bool_value_roundtrip(v bool, maxLen int, nullable bool) {
+	enc, err := EncodeRawValue(v, BooleanType, maxLen, nullable)
+	verifAssert("enc_ok", err == nil && len(enc) == 5)
+	tv, n, err2 := decodeValue(enc, BooleanType, nullable)
+	verifAssert("dec_ok", err2 == nil && n == 5)
+	bv, ok := tv.(*Bool)
+	verifAssert("dec_type", ok)
+	verifAssert("roundtrip", bv.val == v)
+}
+
+func verif_float_value_roundtrip(v float64, maxLen int, nullable bool) {
+	enc, err := EncodeRawValue(v, Float64Type, maxLen, nullable)
+	verifAssert("enc_ok", err == nil && len(enc) == 12)
+	tv, n, err2 := decodeValue(enc, Float64Type, nullable)
+	verifAssert("dec_ok", err2 == nil && n == 12)
+	fv, ok := tv.(*Float64)
+	verifAssert("dec_type", ok)
+	verifAssert("roundtrip", math.Float64bits(fv.val) == math.Float64bits(v))
+}
+
+func verif_uuid_value_roundtrip(u uuid.UUID, maxLen int, nullable bool) {
+	enc, err := EncodeRawValue(u, UUIDType, maxLen, nullable)
+	verifAssert("enc_ok", err == nil && len(enc) == 20)
+	tv, n, err2 := decodeValue(enc, UUIDType, nullable)
+	verifAssert("dec_ok", err2 == nil && n == 20)
+	uv, ok := tv.(*UUID)
+	verifAssert("dec_type", ok)
+	verifAssert("roundtrip", uv.val == u)
+}
+
+// TIMESTAMP values are stored as microseconds (TimeToInt64); decoding builds time.Unix(..).UTC() (library, not modelled)
+func verif_ts_value_layout(t time.Time, maxLen int, nullable bool) {
+	enc, err := EncodeRawValue(t, TimestampType, maxLen, nullable)
+	verifAssert("enc_ok", err == nil && len(enc) == 12)
+	verifAssert("micros", int64(binary.BigEndian.Uint64(enc[4:])) == TimeToInt64(t))
+	tv, n, err2 := decodeValue(enc, TimestampType, nullable)
+	verifAssert("dec_ok", err2 == nil && n == 12)
+	_, ok := tv.(*Timestamp)
+	verifAssert("dec_type", ok)
+}
+
+// NULL in a nullable column
+func verif_null_value_roundtrip(colType SQLValueType, maxLen int) {
+	enc, err := EncodeRawValue(nil, colType, maxLen, true)
+	verifAssert("enc_ok", err == nil && len(enc) == 4)
+	tv, n, err2 := decodeValue(enc, colType, true)
+	verifAssert("dec_ok", err2 == nil && n == 4)
+	_, ok := tv.(*NullValue)
+	verifAssert("dec_type", ok)
+	_, err3 := EncodeRawValue(nil, colType, maxLen, false)
+	verifAssert("rejected_when_not_nullable", err3 != nil)
+}
+
+// VARCHAR with symbolic content of any length; the case (nullable, empty string) is excluded here, see below
+func verif_varchar_value_roundtrip(s string, maxLen int, nullable bool) {
+	verifAssume(maxLen <= 0 || len(s) <= maxLen)
+	verifAssume(len(s) <= 0xFFFFFFFF) // the length prefix has 32 bits (longer payloads are silently mis-encoded)
+	verifAssume(!(nullable && len(s) == 0))
+	enc, err := EncodeRawValue(s, VarcharType, maxLen, nullable)
+	verifAssert("enc_ok", err == nil && len(enc) == 4+len(s))
+	tv, n, err2 := decodeValue(enc, VarcharType, nullable)
+	verifAssert("dec_ok", err2 == nil && n == 4+len(s))
+	vv, ok := tv.(*Varchar)
+	verifAssert("dec_type", ok)
+	verifAssert("roundtrip", bytes.Equal([]byte(vv.val), []byte(s)))
+}
+
+// EXPECTED TO FAIL: with the nullable variant (EncodeNullableValue / DecodeNullableValue, used by the file sorter) the
+// empty string encodes as length 0, which IS the encoding of NULL: decode(encode("")) is NULL. Genuine defect.
+func verif_varchar_value_roundtrip_nullable_empty(s string, maxLen int) {
+	verifAssume(maxLen <= 0 || len(s) <= maxLen)
+	enc, err := EncodeRawValue(s, VarcharType, maxLen, true)
+	verifAssume(err == nil)
+	tv, _, err2 := decodeValue(enc, VarcharType, true)
+	verifAssume(err2 == nil)
+	_, ok := tv.(*Varchar)
+	verifAssert("dec_type", ok)
+}
+
+func verif_blob_value_roundtrip(p []byte, maxLen int, nullable bool) {
+	verifAssume(maxLen <= 0 || len(p) <= maxLen)
+	verifAssume(len(p) <= 0xFFFFFFFF) // the length prefix has 32 bits (longer payloads are silently mis-encoded)
+	verifAssume(!(nullable && len(p) == 0))
+	enc, err := EncodeRawValue(p, BLOBType, maxLen, nullable)
+	verifAssert("enc_ok", err == nil && len(enc) == 4+len(p))
+	tv, n, err2 := decodeValue(enc, BLOBType, nullable)
+	verifAssert("dec_ok", err2 == nil && n == 4+len(p))
+	bv, ok := tv.(*Blob)
+	verifAssert("dec_type", ok)
+	verifAssert("roundtrip", bytes.Equal(bv.val, p))
+}
+
+// EXPECTED TO FAIL: same defect for the empty (non-nil) BLOB in the nullable variant
+func verif_blob_value_roundtrip_nullable_empty(p []byte, maxLen int) {
+	verifAssume(p != nil)
+	verifAssume(maxLen <= 0 || len(p) <= maxLen)
+	enc, err := EncodeRawValue(p, BLOBType, maxLen, true)
+	verifAssume(err == nil)
+	tv, _, err2 := decodeValue(enc, BLOBType, true)
+	verifAssume(err2 == nil)
+	_, ok := tv.(*Blob)
+	verifAssert("dec_type", ok)
+}
+
+// ---- VARCHAR / BLOB keys: [0x80][payload][zero padding up to maxLen][len uint32 BE]
+
+// round trip for every maxLen <= MaxKeyLen and symbolic content of any length <= maxLen (unbounded)
+func verif_varchar_key_roundtrip(s string, maxLen int) {
+	verifAssume(0 < maxLen && maxLen <= MaxKeyLen && len(s) <= maxLen)
+	verifEnv()
+	enc, n, err := EncodeRawValueAsKey(s, VarcharType, maxLen)
+	verifAssert("enc_ok", err == nil && n == len(s) && len(enc) == 1+maxLen+4)
+	tv, m, err2 := DecodeValueFromKey(enc, VarcharType, maxLen)
+	verifAssert("dec_ok", err2 == nil && m == 1+maxLen+4)
+	vv, ok := tv.(*Varchar)
+	verifAssert("dec_type", ok)
+	verifAssert("roundtrip", bytes.Equal([]byte(vv.val), []byte(s)))
+}
+
+func verif_blob_key_roundtrip(p []byte, maxLen int) {
+	verifAssume(0 < maxLen && maxLen <= MaxKeyLen && len(p) <= maxLen)
+	verifEnv()
+	enc, n, err := EncodeRawValueAsKey(p, BLOBType, maxLen)
+	verifAssert("enc_ok", err == nil && n == len(p) && len(enc) == 1+maxLen+4)
+	tv, m, err2 := DecodeValueFromKey(enc, BLOBType, maxLen)
+	verifAssert("dec_ok", err2 == nil && m == 1+maxLen+4)
+	bv, ok := tv.(*Blob)
+	verifAssert("dec_type", ok)
+	verifAssert("roundtrip", bytes.Equal(bv.val, p))
+}
+
+// bytes.Compare(x, y) < 0 written out for len(x), len(y) <= 8 (loop-free)
+func verifLexLess8(x, y []byte) bool {
+	if len(x) <= 0 {
+		return len(y) > 0
+	}
+	if len(y) <= 0 {
+		return false
+	}
+	if x[0] != y[0] {
+		return x[0] < y[0]
+	}
+	if len(x) <= 1 {
+		return len(y) > 1
+	}
+	if len(y) <= 1 {
+		return false
+	}
+	if x[1] != y[1] {
+		return x[1] < y[1]
+	}
+	if len(x) <= 2 {
+		return len(y) > 2
+	}
+	if len(y) <= 2 {
+		return false
+	}
+	if x[2] != y[2] {
+		return x[2] < y[2]
+	}
+	if len(x) <= 3 {
+		return len(y) > 3
+	}
+	if len(y) <= 3 {
+		return false
+	}
+	if x[3] != y[3] {
+		return x[3] < y[3]
+	}
+	if len(x) <= 4 {
+		return len(y) > 4
+	}
+	if len(y) <= 4 {
+		return false
+	}
+	if x[4] != y[4] {
+		return x[4] < y[4]
+	}
+	if len(x) <= 5 {
+		return len(y) > 5
+	}
+	if len(y) <= 5 {
+		return false
+	}
+	if x[5] != y[5] {
+		return x[5] < y[5]
+	}
+	if len(x) <= 6 {
+		return len(y) > 6
+	}
+	if len(y) <= 6 {
+		return false
+	}
+	if x[6] != y[6] {
+		return x[6] < y[6]
+	}
+	if len(x) <= 7 {
+		return len(y) > 7
+	}
+	if len(y) <= 7 {
+		return false
+	}
+	if x[7] != y[7] {
+		return x[7] < y[7]
+	}
+	return len(x) < len(y)
+}
+
+// bytes.Compare(x, y) < 0 written out for len(x), len(y) <= 13 (loop-free)
+func verifLexLess13(x, y []byte) bool {
+	if len(x) <= 0 {
+		return len(y) > 0
+	}
+	if len(y) <= 0 {
+		return false
+	}
+	if x[0] != y[0] {
+		return x[0] < y[0]
+	}
+	if len(x) <= 1 {
+		return len(y) > 1
+	}
+	if len(y) <= 1 {
+		return false
+	}
+	if x[1] != y[1] {
+		return x[1] < y[1]
+	}
+	if len(x) <= 2 {
+		return len(y) > 2
+	}
+	if len(y) <= 2 {
+		return false
+	}
+	if x[2] != y[2] {
+		return x[2] < y[2]
+	}
+	if len(x) <= 3 {
+		return len(y) > 3
+	}
+	if len(y) <= 3 {
+		return false
+	}
+	if x[3] != y[3] {
+		return x[3] < y[3]
+	}
+	if len(x) <= 4 {
+		return len(y) > 4
+	}
+	if len(y) <= 4 {
+		return false
+	}
+	if x[4] != y[4] {
+		return x[4] < y[4]
+	}
+	if len(x) <= 5 {
+		return len(y) > 5
+	}
+	if len(y) <= 5 {
+		return false
+	}
+	if x[5] != y[5] {
+		return x[5] < y[5]
+	}
+	if len(x) <= 6 {
+		return len(y) > 6
+	}
+	if len(y) <= 6 {
+		return false
+	}
+	if x[6] != y[6] {
+		return x[6] < y[6]
+	}
+	if len(x) <= 7 {
+		return len(y) > 7
+	}
+	if len(y) <= 7 {
+		return false
+	}
+	if x[7] != y[7] {
+		return x[7] < y[7]
+	}
+	if len(x) <= 8 {
+		return len(y) > 8
+	}
+	if len(y) <= 8 {
+		return false
+	}
+	if x[8] != y[8] {
+		return x[8] < y[8]
+	}
+	if len(x) <= 9 {
+		return len(y) > 9
+	}
+	if len(y) <= 9 {
+		return false
+	}
+	if x[9] != y[9] {
+		return x[9] < y[9]
+	}
+	if len(x) <= 10 {
+		return len(y) > 10
+	}
+	if len(y) <= 10 {
+		return false
+	}
+	if x[10] != y[10] {
+		return x[10] < y[10]
+	}
+	if len(x) <= 11 {
+		return len(y) > 11
+	}
+	if len(y) <= 11 {
+		return false
+	}
+	if x[11] != y[11] {
+		return x[11] < y[11]
+	}
+	if len(x) <= 12 {
+		return len(y) > 12
+	}
+	if len(y) <= 12 {
+		return false
+	}
+	if x[12] != y[12] {
+		return x[12] < y[12]
+	}
+	return len(x) < len(y)
+}
+
+func verifLexEq8(x, y []byte) bool {
+	if len(x) != len(y) {
+		return false
+	}
+	if len(x) > 0 && x[0] != y[0] {
+		return false
+	}
+	if len(x) > 1 && x[1] != y[1] {
+		return false
+	}
+	if len(x) > 2 && x[2] != y[2] {
+		return false
+	}
+	if len(x) > 3 && x[3] != y[3] {
+		return false
+	}
+	if len(x) > 4 && x[4] != y[4] {
+		return false
+	}
+	if len(x) > 5 && x[5] != y[5] {
+		return false
+	}
+	if len(x) > 6 && x[6] != y[6] {
+		return false
+	}
+	if len(x) > 7 && x[7] != y[7] {
+		return false
+	}
+	return true
+}
+
+func verifLexEq13(x, y []byte) bool {
+	if len(x) != len(y) {
+		return false
+	}
+	if len(x) > 0 && x[0] != y[0] {
+		return false
+	}
+	if len(x) > 1 && x[1] != y[1] {
+		return false
+	}
+	if len(x) > 2 && x[2] != y[2] {
+		return false
+	}
+	if len(x) > 3 && x[3] != y[3] {
+		return false
+	}
+	if len(x) > 4 && x[4] != y[4] {
+		return false
+	}
+	if len(x) > 5 && x[5] != y[5] {
+		return false
+	}
+	if len(x) > 6 && x[6] != y[6] {
+		return false
+	}
+	if len(x) > 7 && x[7] != y[7] {
+		return false
+	}
+	if len(x) > 8 && x[8] != y[8] {
+		return false
+	}
+	if len(x) > 9 && x[9] != y[9] {
+		return false
+	}
+	if len(x) > 10 && x[10] != y[10] {
+		return false
+	}
+	if len(x) > 11 && x[11] != y[11] {
+		return false
+	}
+	if len(x) > 12 && x[12] != y[12] {
+		return false
+	}
+	return true
+}
+
+// stepping stones for the bounded order lemma: every byte of a var-length key e of payload p, position by position
+// (each is one instance of the quantified facts of the EncodeRawValueAsKey contract; later obligations may use them)
+func verifVarKeyBytes(e, p []byte, maxLen int) {
+	verifAssert("payload_0", !(0 < len(p)) || e[1] == p[0])
+	verifAssert("padding_0", !(len(p) <= 0 && 0 < maxLen) || e[1] == 0)
+	verifAssert("payload_1", !(1 < len(p)) || e[2] == p[1])
+	verifAssert("padding_1", !(len(p) <= 1 && 1 < maxLen) || e[2] == 0)
+	verifAssert("payload_2", !(2 < len(p)) || e[3] == p[2])
+	verifAssert("padding_2", !(len(p) <= 2 && 2 < maxLen) || e[3] == 0)
+	verifAssert("payload_3", !(3 < len(p)) || e[4] == p[3])
+	verifAssert("padding_3", !(len(p) <= 3 && 3 < maxLen) || e[4] == 0)
+	verifAssert("payload_4", !(4 < len(p)) || e[5] == p[4])
+	verifAssert("padding_4", !(len(p) <= 4 && 4 < maxLen) || e[5] == 0)
+	verifAssert("payload_5", !(5 < len(p)) || e[6] == p[5])
+	verifAssert("padding_5", !(len(p) <= 5 && 5 < maxLen) || e[6] == 0)
+	verifAssert("payload_6", !(6 < len(p)) || e[7] == p[6])
+	verifAssert("padding_6", !(len(p) <= 6 && 6 < maxLen) || e[7] == 0)
+	verifAssert("payload_7", !(7 < len(p)) || e[8] == p[7])
+	verifAssert("padding_7", !(len(p) <= 7 && 7 < maxLen) || e[8] == 0)
+	verifAssert("suffix_0", e[1+maxLen+0] == 0)
+	verifAssert("suffix_1", e[1+maxLen+1] == 0)
+	verifAssert("suffix_2", e[1+maxLen+2] == 0)
+	verifAssert("suffix_3", e[1+maxLen+3] == byte(len(p)))
+	verifAssert("tag", e[0] == KeyValPrefixNotNull)
+}
+
+// the same helpers over strings (s[k] directly: no []byte(s) conversion, which would allocate a copy)
+func verifLexLess8Str(x, y string) bool {
+	if len(x) <= 0 {
+		return len(y) > 0
+	}
+	if len(y) <= 0 {
+		return false
+	}
+	if x[0] != y[0] {
+		return x[0] < y[0]
+	}
+	if len(x) <= 1 {
+		return len(y) > 1
+	}
+	if len(y) <= 1 {
+		return false
+	}
+	if x[1] != y[1] {
+		return x[1] < y[1]
+	}
+	if len(x) <= 2 {
+		return len(y) > 2
+	}
+	if len(y) <= 2 {
+		return false
+	}
+	if x[2] != y[2] {
+		return x[2] < y[2]
+	}
+	if len(x) <= 3 {
+		return len(y) > 3
+	}
+	if len(y) <= 3 {
+		return false
+	}
+	if x[3] != y[3] {
+		return x[3] < y[3]
+	}
+	if len(x) <= 4 {
+		return len(y) > 4
+	}
+	if len(y) <= 4 {
+		return false
+	}
+	if x[4] != y[4] {
+		return x[4] < y[4]
+	}
+	if len(x) <= 5 {
+		return len(y) > 5
+	}
+	if len(y) <= 5 {
+		return false
+	}
+	if x[5] != y[5] {
+		return x[5] < y[5]
+	}
+	if len(x) <= 6 {
+		return len(y) > 6
+	}
+	if len(y) <= 6 {
+		return false
+	}
+	if x[6] != y[6] {
+		return x[6] < y[6]
+	}
+	if len(x) <= 7 {
+		return len(y) > 7
+	}
+	if len(y) <= 7 {
+		return false
+	}
+	if x[7] != y[7] {
+		return x[7] < y[7]
+	}
+	return len(x) < len(y)
+}
+
+func verifLexEq8Str(x, y string) bool {
+	if len(x) != len(y) {
+		return false
+	}
+	if len(x) > 0 && x[0] != y[0] {
+		return false
+	}
+	if len(x) > 1 && x[1] != y[1] {
+		return false
+	}
+	if len(x) > 2 && x[2] != y[2] {
+		return false
+	}
+	if len(x) > 3 && x[3] != y[3] {
+		return false
+	}
+	if len(x) > 4 && x[4] != y[4] {
+		return false
+	}
+	if len(x) > 5 && x[5] != y[5] {
+		return false
+	}
+	if len(x) > 6 && x[6] != y[6] {
+		return false
+	}
+	if len(x) > 7 && x[7] != y[7] {
+		return false
+	}
+	return true
+}
+
+func verifVarKeyBytesStr(e []byte, p string, maxLen int) {
+	verifAssert("payload_0", !(0 < len(p)) || e[1] == p[0])
+	verifAssert("padding_0", !(len(p) <= 0 && 0 < maxLen) || e[1] == 0)
+	verifAssert("payload_1", !(1 < len(p)) || e[2] == p[1])
+	verifAssert("padding_1", !(len(p) <= 1 && 1 < maxLen) || e[2] == 0)
+	verifAssert("payload_2", !(2 < len(p)) || e[3] == p[2])
+	verifAssert("padding_2", !(len(p) <= 2 && 2 < maxLen) || e[3] == 0)
+	verifAssert("payload_3", !(3 < len(p)) || e[4] == p[3])
+	verifAssert("padding_3", !(len(p) <= 3 && 3 < maxLen) || e[4] == 0)
+	verifAssert("payload_4", !(4 < len(p)) || e[5] == p[4])
+	verifAssert("padding_4", !(len(p) <= 4 && 4 < maxLen) || e[5] == 0)
+	verifAssert("payload_5", !(5 < len(p)) || e[6] == p[5])
+	verifAssert("padding_5", !(len(p) <= 5 && 5 < maxLen) || e[6] == 0)
+	verifAssert("payload_6", !(6 < len(p)) || e[7] == p[6])
+	verifAssert("padding_6", !(len(p) <= 6 && 6 < maxLen) || e[7] == 0)
+	verifAssert("payload_7", !(7 < len(p)) || e[8] == p[7])
+	verifAssert("padding_7", !(len(p) <= 7 && 7 < maxLen) || e[8] == 0)
+	verifAssert("suffix_0", e[1+maxLen+0] == 0)
+	verifAssert("suffix_1", e[1+maxLen+1] == 0)
+	verifAssert("suffix_2", e[1+maxLen+2] == 0)
+	verifAssert("suffix_3", e[1+maxLen+3] == byte(len(p)))
+	verifAssert("tag", e[0] == KeyValPrefixNotNull)
+}
+
+// BOUNDED stand-in (maxLen <= 8, all lengths and contents symbolic): order of the keys = bytes.Compare of the payloads
+// (the SQL comparison of VARCHAR and BLOB), equal payloads <=> identical keys. Includes empty and NUL-containing payloads.
+func verif_blob_key_order_bounded(p, q []byte, maxLen int) {
+	verifAssume(0 < maxLen && maxLen <= 8 && len(p) <= maxLen && len(q) <= maxLen)
+	verifEnv()
+	ep, _, errp := EncodeRawValueAsKey(p, BLOBType, maxLen)
+	eq, _, errq := EncodeRawValueAsKey(q, BLOBType, maxLen)
+	verifAssert("enc_ok", errp == nil && errq == nil && len(ep) == 1+maxLen+4 && len(eq) == 1+maxLen+4)
+	verifVarKeyBytes(ep, p, maxLen)
+	verifVarKeyBytes(eq, q, maxLen)
+	// one case per value of maxLen (the position of the length suffix becomes concrete), then the general statement
+	ol, oe := verifLexLess8(p, q) == verifLexLess13(ep, eq), verifLexEq8(p, q) == verifLexEq13(ep, eq)
+	verifAssert("order_m1", maxLen != 1 || ol)
+	verifAssert("equal_m1", maxLen != 1 || oe)
+	verifAssert("order_m2", maxLen != 2 || ol)
+	verifAssert("equal_m2", maxLen != 2 || oe)
+	verifAssert("order_m3", maxLen != 3 || ol)
+	verifAssert("equal_m3", maxLen != 3 || oe)
+	verifAssert("order_m4", maxLen != 4 || ol)
+	verifAssert("equal_m4", maxLen != 4 || oe)
+	verifAssert("order_m5", maxLen != 5 || ol)
+	verifAssert("equal_m5", maxLen != 5 || oe)
+	verifAssert("order_m6", maxLen != 6 || ol)
+	verifAssert("equal_m6", maxLen != 6 || oe)
+	verifAssert("order_m7", maxLen != 7 || ol)
+	verifAssert("equal_m7", maxLen != 7 || oe)
+	verifAssert("order_m8", maxLen != 8 || ol)
+	verifAssert("equal_m8", maxLen != 8 || oe)
+	verifAssert("order", ol)
+	verifAssert("equal", oe)
+}
+
+func verif_varchar_key_order_bounded(s, t string, maxLen int) {
+	verifAssume(0 < maxLen && maxLen <= 8 && len(s) <= maxLen && len(t) <= maxLen)
+	verifEnv()
+	es, _, errs := EncodeRawValueAsKey(s, VarcharType, maxLen)
+	et, _, errt := EncodeRawValueAsKey(t, VarcharType, maxLen)
+	verifAssert("enc_ok", errs == nil && errt == nil && len(es) == 1+maxLen+4 && len(et) == 1+maxLen+4)
+	verifVarKeyBytesStr(es, s, maxLen)
+	verifVarKeyBytesStr(et, t, maxLen)
+	ol, oe := verifLexLess8Str(s, t) == verifLexLess13(es, et), verifLexEq8Str(s, t) == verifLexEq13(es, et)
+	verifAssert("order_m1", maxLen != 1 || ol)
+	verifAssert("equal_m1", maxLen != 1 || oe)
+	verifAssert("order_m2", maxLen != 2 || ol)
+	verifAssert("equal_m2", maxLen != 2 || oe)
+	verifAssert("order_m3", maxLen != 3 || ol)
+	verifAssert("equal_m3", maxLen != 3 || oe)
+	verifAssert("order_m4", maxLen != 4 || ol)
+	verifAssert("equal_m4", maxLen != 4 || oe)
+	verifAssert("order_m5", maxLen != 5 || ol)
+	verifAssert("equal_m5", maxLen != 5 || oe)
+	verifAssert("order_m6", maxLen != 6 || ol)
+	verifAssert("equal_m6", maxLen != 6 || oe)
+	verifAssert("order_m7", maxLen != 7 || ol)
+	verifAssert("equal_m7", maxLen != 7 || oe)
+	verifAssert("order_m8", maxLen != 8 || ol)
+	verifAssert("equal_m8", maxLen != 8 || oe)
+	verifAssert("order", ol)
+	verifAssert("equal", oe)
+}
+
+// ---- EncodeID: 4-byte big-endian id (catalog ids inside mapped keys: big-endian => byte order = numeric order)
+
+func verif_encodeid_layout(a, b uint32) {
+	ea, eb := EncodeID(a), EncodeID(b)
+	verifAssert("len", len(ea) == EncIDLen && len(eb) == EncIDLen)
+	verifAssert("value", binary.BigEndian.Uint32(ea) == a)
+	verifAssert("order", (a < b) == (binary.BigEndian.Uint32(ea) < binary.BigEndian.Uint32(eb)))
+	lex := ea[0] < eb[0] || (ea[0] == eb[0] && (ea[1] < eb[1] || (ea[1] == eb[1] && (ea[2] < eb[2] || (ea[2] == eb[2] && ea[3] < eb[3])))))
+	verifAssert("lex", (a < b) == lex)
+}
+
+// (not included: the integer arithmetic of TimeToInt64(TimeFromInt64(t)) == t, i.e. (t/1e6 - carry)*1e6 + (nsec + carry*1e9)/1e3 == t:
+// 64-bit division/remainder by 1e6 and 1e3 times out in z3/cvc5 even for |t| < 2^36; see the notes)
+
+// --- con-c15 end
